@@ -27,7 +27,14 @@ structure CF where
   objDef : String
   sels : List Sel
   deferred : Option String := none
+  /-- the executable directives (other than `@skip` / `@include` / `@defer`) of the FIRST occurrence: the generated
+      `_fieldMiddleware` reads `fc.Field.Directives`, and `CollectedField.Field` is the first `*ast.Field` -/
+  fdirs : List String := []
 deriving Repr, Inhabited
+
+/-- names of the executable directives a field selection carries besides the built-in ones, in document order -/
+def userDirs (dirs : List Dir) : List String :=
+  (dirs.map (·.name)).filter fun n => n != "skip" && n != "include" && n != "defer"
 
 /-- `arg.Value.Value(variables)` restricted to what execution inspects -/
 def ArgVal.bool? (vars : Vars) : ArgVal → Option Bool
@@ -114,7 +121,7 @@ def collect (dup : Bool) (s : Schema) (frags : List Frag) (vars : Vars) (satisfi
       if !shouldInclude vars dirs then collect dup s frags vars satisfies fuel rest acc vis else
       let acc' := match findSlot s acc name alias objDef with
         | some i => acc.modify i fun f => { f with sels := f.sels ++ ss }
-        | none => acc ++ [{ alias, name, objDef, sels := ss }]
+        | none => acc ++ [{ alias, name, objDef, sels := ss, fdirs := userDirs dirs }]
       collect dup s frags vars satisfies fuel rest acc' vis
     | .inline tc dirs ss =>
       if !satisfies.isEmpty && tc != "" && !satisfies.contains tc then
@@ -154,6 +161,7 @@ structure Occ where
   objDef : String
   sels : List Sel
   deferred : Option String
+  fdirs : List String := []
 deriving Repr, Inhabited
 
 /-- GraphQL §6.3.2 `CollectFields`, producing the ordered occurrences; `applies tc` is
@@ -168,7 +176,7 @@ def occurrences (frags : List Frag) (vars : Vars) (applies : String → Bool) :
       if !shouldInclude vars dirs then occurrences frags vars applies fuel rest dfr vis else
       match occurrences frags vars applies fuel rest dfr vis with
       | none => none
-      | some (os, vis') => some ({ alias, name, objDef, sels := ss, deferred := dfr } :: os, vis')
+      | some (os, vis') => some ({ alias, name, objDef, sels := ss, deferred := dfr, fdirs := userDirs dirs } :: os, vis')
     | .inline tc dirs ss =>
       if !shouldInclude vars dirs then occurrences frags vars applies fuel rest dfr vis
       else if tc != "" && !applies tc then occurrences frags vars applies fuel rest dfr vis
@@ -206,7 +214,7 @@ def group : List Occ → List CF → List CF
     match acc.findIdx? (·.alias == o.alias) with
     | some i => group os (acc.modify i fun f => { f with sels := f.sels ++ o.sels })
     | none => group os (acc ++ [{ alias := o.alias, name := o.name, objDef := o.objDef, sels := o.sels,
-                                   deferred := o.deferred }])
+                                   deferred := o.deferred, fdirs := o.fdirs }])
 
 end Spec
 
